@@ -12,6 +12,7 @@
  *   A <k> <hex64>    set integer argument register k (0..5) for the next pg entry
  *   RV <hex64>       set the return value for the next exit
  *   FLUSH            what the SIGSEGV handler does first: record open frames (mcount_rstack_restore + record)
+ *   FORK             fork(); the child continues the script (atfork_child_handler runs), the parent waits
  *   END              print trailer and exit(0) (normal exit: destructor runs)
  * stdout: one line per op:
  *   <opno> rc=<r> [ret=ok|BAD] errno=<ok|BAD> recs=<hex of every new 16-byte record and payload, space separated>
@@ -25,6 +26,7 @@
 #include <string.h>
 #include <time.h>
 #include <unistd.h>
+#include <sys/wait.h>
 
 #include "libmcount/internal.h"
 #include "libmcount/mcount.h"
@@ -249,6 +251,25 @@ int main(void)
 			}
 			else
 				printf("%d restored=1", opno);
+			dump_new_records();
+			printf("\n");
+		}
+		else if (!strcmp(op, "FORK")) {
+			pid_t pid;
+
+			fflush(stdout);
+			pid = fork();
+			if (pid > 0) {
+				int st;
+
+				/* the parent's part of the script ends here; the child carries on */
+				waitpid(pid, &st, 0);
+				_exit(WIFEXITED(st) ? WEXITSTATUS(st) : 99);
+			}
+			/* child: libmcount's atfork handler gave it fresh buffers */
+			cur_buf = 0;
+			cur_off = 0;
+			printf("%d forked", opno);
 			dump_new_records();
 			printf("\n");
 		}
